@@ -329,7 +329,7 @@ def check(P: Project, R: Report) -> None:
                 if o_ in ("None", ""):
                     continue
                 n_tok += 1
-                minted = bool(re.fullmatch(r"(str\()?uuid\.uuid4\(\)(\.hex)?\)?", o_))
+                minted = _sendmsg.is_minted(o_)
                 R.ob("R5", "a token the request goes out with passes the wait's truthiness test", minted or o_.startswith(("'", '"')) and len(o_) > 2, f"{srel}:{W.wait_call.lineno}",
                      f"the wait is given the token `{o_[:70]}` and tests it with `if {tok_param} and …`: a caller's token of 0 or \"\" goes out on the wire as this request's token and is then never matched — every progress notification bearing it is skipped and the callback is never called",
                      sample=f"R5 token handed to the wait: {o_[:50]}")
